@@ -95,6 +95,8 @@ pub struct Mix {
     pub dense: u32,
     pub special: u32,
     pub maxrec: u32,
+    pub special2: u32,
+    pub heavy: u32,
     /// probability (per 100) that a root is followed by a walk, and its maximal length
     pub walk_pct: u32,
     pub walk_len: u32,
@@ -107,15 +109,15 @@ pub struct Mix {
 impl Mix {
     pub const GENERAL: Mix = Mix {
         start960: 6, dfrc: 6, corpus: 10, scatter: 14, sound: 12, pins: 12, ep: 12, castle: 14, promo: 6, mating: 5,
-        maxbatch: 1, sanamb: 2, fewmovers: 3, rookcap: 4, epdisc: 4, dense: 2, special: 3, maxrec: 1, walk_pct: 35, walk_len: 60, null_pct: 8, clock_edge_pct: 15,
+        maxbatch: 1, sanamb: 2, fewmovers: 3, rookcap: 4, epdisc: 4, dense: 2, special: 3, maxrec: 1, special2: 3, heavy: 1, walk_pct: 35, walk_len: 60, null_pct: 8, clock_edge_pct: 15,
     };
     pub const HISTORIES: Mix = Mix {
         start960: 10, dfrc: 10, corpus: 10, scatter: 6, sound: 10, pins: 14, ep: 12, castle: 14, promo: 6, mating: 6,
-        maxbatch: 1, sanamb: 1, fewmovers: 3, rookcap: 4, epdisc: 4, dense: 2, special: 3, maxrec: 1, walk_pct: 90, walk_len: 120, null_pct: 15, clock_edge_pct: 20,
+        maxbatch: 1, sanamb: 1, fewmovers: 3, rookcap: 4, epdisc: 4, dense: 2, special: 3, maxrec: 1, special2: 3, heavy: 1, walk_pct: 90, walk_len: 120, null_pct: 15, clock_edge_pct: 20,
     };
     pub const ROOTS_ONLY: Mix = Mix {
         start960: 4, dfrc: 4, corpus: 12, scatter: 16, sound: 14, pins: 12, ep: 12, castle: 14, promo: 6, mating: 4,
-        maxbatch: 1, sanamb: 1, fewmovers: 3, rookcap: 4, epdisc: 4, dense: 2, special: 3, maxrec: 1, walk_pct: 10, walk_len: 20, null_pct: 5, clock_edge_pct: 10,
+        maxbatch: 1, sanamb: 1, fewmovers: 3, rookcap: 4, epdisc: 4, dense: 2, special: 3, maxrec: 1, special2: 3, heavy: 1, walk_pct: 10, walk_len: 20, null_pct: 5, clock_edge_pct: 10,
     };
 }
 
@@ -173,7 +175,7 @@ impl<'c> Driver<'c> {
     /// candidate (which is normal for scatter / lattice candidates).
     pub fn root(&self, cx: &mut Cx) -> Option<(Board, &'static str, &'static str, Option<RMove>)> {
         let m = &self.mix;
-        let ws = [m.start960, m.dfrc, m.corpus, m.scatter, m.sound, m.pins, m.ep, m.castle, m.promo, m.mating, m.maxbatch, m.sanamb, m.fewmovers, m.rookcap, m.epdisc, m.dense, m.special, m.maxrec];
+        let ws = [m.start960, m.dfrc, m.corpus, m.scatter, m.sound, m.pins, m.ep, m.castle, m.promo, m.mating, m.maxbatch, m.sanamb, m.fewmovers, m.rookcap, m.epdisc, m.dense, m.special, m.maxrec, m.special2, m.heavy];
         let mut k = pick_weighted(cx, &ws);
         if cx.miri {
             // under the Miri interpreter only the cheap sources (no rejection sampling)
@@ -234,6 +236,8 @@ impl<'c> Driver<'c> {
                     15 => (gen::dense_fragmented_case(&mut cx.rng), "dense-fragmented"),
                     16 => gen::special_class_case(&mut cx.rng),
                     17 => (gen::max_record_case(&mut cx.rng), "max-record"),
+                    18 => gen::special_class_case2(&mut cx.rng),
+                    19 => (gen::heavy_material_case(&mut cx.rng), "heavy-material"),
                     _ => (gen::rook_right_capture_case(&mut cx.rng), "rook-right-capture"),
                 };
                 // both entry routes are used; which one hands out the board alternates
